@@ -420,6 +420,8 @@ def r12_close_writes_nothing(ctx):
 
 
 def run(ctx):
+    from . import effects
+    effects.check_property(ctx, "C05")    # R05.E: no operation on shared protocol state outside the reviewed table
     r11_no_header_only_padding(ctx)
     r12_close_writes_nothing(ctx)
     from . import C19 as _C19
